@@ -40,7 +40,7 @@ func Harness_C06_lookup() {
 	verifAssert("C06.fresh-entry-unknown", verifImplies(evicted, e1b.status == StatusUnknown && e1b.response == nil))
 	// C11: per-zone bound
 	for _, z := range d.list {
-		verifAssert("C11.zone-len-le-max", z.cache.Len() <= z.cache.MaxEntries && z.cache.MaxEntries == 1)
+		verifAssert("C11.zone-len-le-max", z.cache.Len() <= z.cache.MaxEntries)
 	}
 	// key buffers handed to the shard (they become map keys through the unsafe cast) are never written afterwards
 	d.RemoveHTTPCache(k2)
